@@ -267,7 +267,7 @@ def expand_power(spec, rings, nduct=1):
         w = radial_weights(counts[key], kind, spec.get('seed', 0) + j)
         cells = []
         for k in range(ncell):
-            co = np.array(AXIAL[ax[k]]) * amp[k]
+            co = np.array(AXIAL[ax[k]]) * (spec.get('amp_' + key) or amp)[k]
             order = spec.get('order')
             if order is None:
                 order = max(len(AXIAL[a]) for a in ax) - 1
